@@ -155,4 +155,10 @@ CHECKS["C47"] = dict(level="model_checking", technique="TLC model checking of Re
          "on src/targets.lst, the registry is re-parsed independently after every run, and TLC validates each history by finding internal "
          "steps that explain every observation, with the invariants evaluated along the way.",
     note="Descriptions of inputs come from solo runs. Library / source names with quotes or spaces are not generated.", ref="8/C47")
+CHECKS["C36"] = dict(level="model_checking", technique="history model (MFrontRun.tla): TLC-generated run histories executed with the real mfront, digests validated by TLC as a trace",
+    text="TLC enumerates every history of at most 3 runs over 4 (input, interface) keys (84 histories, 232 runs in one directory each) "
+         "- fresh, repeated, after other inputs - each run under a randomly chosen environment (default, other time zone / locale / home, "
+         "nearly empty and reordered); after every run the driver hashes the generated tree (masking #line paths) and TLC checks, event by "
+         "event, that the files of a key always have the digests first observed and that no run touches another key's files.",
+    note="Quick: 4 small inputs; thorough adds 12 behaviours of the repository. Time dependence is probed only through the wall clock advancing between runs.", ref="8/C36")
 NOT_APPLICABLE = {}
